@@ -2,7 +2,7 @@
 """rewrites the seeded-changes table of DESIGN.md from seeded/*/meta.json"""
 import glob, json, os, re
 V = os.path.dirname(os.path.dirname(os.path.abspath(__file__)))
-rows = ['| seeded change | property | what it needs to manifest | reported by (property: rules) |', '|---|---|---|---|']
+rows = ['| seeded change | property | what it needs to manifest | reported by (property: rules) | when it arrived |', '|---|---|---|---|---|']
 n = hit = 0
 for d in sorted(glob.glob(os.path.join(V, 'seeded', '*'))):
     m = json.load(open(d + '/meta.json'))
@@ -10,7 +10,7 @@ for d in sorted(glob.glob(os.path.join(V, 'seeded', '*'))):
     own = [x for x in det if x['property'] == m['property']]
     n += 1; hit += 1 if own else 0
     rep = '; '.join('%s: %s' % (x['property'], ', '.join(x['rules'])) for x in det) or '**not reported**'
-    rows.append('| `%s` | %s | %s | %s |' % (m['id'], m['property'], m['needs_to_manifest'].replace('|', '/'), rep))
+    rows.append('| `%s` | %s | %s | %s | %s |' % (m['id'], m['property'], m['needs_to_manifest'].replace('|', '/'), rep, m.get('on_arrival', '')))
 rows.append('')
 rows.append('%d of %d seeded changes are reported by the check of the property they were written against (most by several checks).' % (hit, n))
 s = open(os.path.join(V, 'DESIGN.md')).read()
